@@ -20,6 +20,8 @@ RULE = (
     "stored tile DATAMIN/DATAMAX (read with astropy) equal the min/max over the finite values of all LEAF arrays beneath it (rel 1e-6), "
     "and DataMin/DataMax of the ImageSet object and of index_rel.wtml equal the root's. Non-trivial: >= 2 levels above the leaves or >= 2 "
     "leaves with different ranges; distinct by spec."
+    ' Also: a second cascade after new leaves arrived, after the extreme leaf was withdrawn, replaced by an older-dated file or updated'
+    ' in place (same or restored Builder); depth-0 pyramids; statement-boundary delays in a quarter of the parallel cascades.'
 )
 ASSUMPTIONS = ["leaf data are read back from the leaf FITS files with astropy", "single-precision rounding: relative 1e-6"]
 DT = dict(F32=np.float32, F64=np.float64, I16=np.int16, I32=np.int32)
